@@ -332,9 +332,11 @@ Definition outcome_spec (res : result) : Prop :=
       if exn_eqb e ClientDisconnected then quiet_close          (* the client went away *)
       else if o_wrote_header1 res then quiet_close               (* failure after output began *)
       else                                                       (* failure before any output *)
+        (* one 500 is attempted and, whether or not it could be built and sent (a head that cannot be
+           encoded, a client that went away), nothing escapes and the connection is wound up: until
+           /repo fix 1a765e6 a UnicodeEncodeError of the 500 itself escaped here *)
         o_served_500 res = true
-        /\ (o_escaped res = None -> o_close res = true /\ o_next res = false)
-        /\ (forall e1, o_escaped res = Some e1 -> e1 = UnicodeEncodeError)
+        /\ o_close res = true /\ o_next res = false /\ o_escaped res = None
   end.
 
 Definition quiet_close_of (res : result) : Prop :=
@@ -346,8 +348,7 @@ Lemma ladder_raised x raw e : x_out x = Exn e ->
   if exn_eqb e ClientDisconnected then quiet_close_of res
   else if t_wrote_header (fst (x_st x)) then quiet_close_of res
   else o_served_500 res = true
-       /\ (o_escaped res = None -> o_close res = true /\ o_next res = false)
-       /\ (forall e1, o_escaped res = Some e1 -> e1 = UnicodeEncodeError).
+       /\ o_close res = true /\ o_next res = false /\ o_escaped res = None.
 Proof.
   intro Hout. cbn zeta. unfold quiet_close_of, ladder. rewrite Hout.
   destruct (exn_eqb e ClientDisconnected) eqn:Ecd.
@@ -362,10 +363,8 @@ Proof.
       by (subst x1; apply (error_run_facts_er cap lower c er0 disc (new_task (r_version r) true) ch0 ee0 eq_refl)).
     destruct EFacts as [ECof EF]. clear Hx1.
     destruct (x_out x1) as [u1|e1] eqn:E1.
-    + cbn. rewrite ECof. repeat split; auto. intros; discriminate.
-    + destruct (EF e1 eq_refl) as [->| ->]; cbn [exn_eqb]; cbn.
-      * repeat split; auto; try discriminate. intros e1 H; inversion H; auto.
-      * repeat split; auto. intros; discriminate.
+    + cbn. rewrite ECof. repeat split; auto.
+    + destruct (exn_eqb e1 ClientDisconnected); cbn; repeat split; auto.
 Qed.
 
 Theorem ladder_outcome x raw : service_rel x raw -> outcome_spec (ladder cap lower c r disc x raw).
@@ -521,9 +520,7 @@ Theorem contained c r a disc e :
      o_close res = true /\ o_next res = false /\ o_escaped res = None
      /\ o_served_500 res = false /\ o_writes res = o_writes1 res)
   /\ (o_wrote_header1 res = false ->
-     o_served_500 res = true
-     /\ (o_escaped res = None -> o_close res = true /\ o_next res = false)
-     /\ (forall e1, o_escaped res = Some e1 -> e1 = UnicodeEncodeError)).
+     o_served_500 res = true /\ o_close res = true /\ o_next res = false /\ o_escaped res = None).
 Proof.
   cbn zeta. intros Hraw Hcd.
   pose proof (service_outcome cap lower c r disc a) as H. unfold outcome_spec in H.
@@ -531,17 +528,16 @@ Proof.
   destruct (o_wrote_header1 (channel_service cap lower c r a disc)); split; intro W; try discriminate; exact H.
 Qed.
 
-Theorem escape_only_encode c r a disc e :
-  let res := channel_service cap lower c r a disc in
-  o_escaped res = Some e -> e = UnicodeEncodeError /\ o_served_500 res = true.
+(* nothing at all leaves HTTPChannel.service() *)
+Theorem nothing_escapes c r a disc :
+  o_escaped (channel_service cap lower c r a disc) = None.
 Proof.
-  cbn zeta. intro Hesc.
   pose proof (service_outcome cap lower c r disc a) as H. unfold outcome_spec in H.
   destruct (o_raw (channel_service cap lower c r a disc)) as [e0|] eqn:Eraw.
-  2: { destruct H as (H & _). congruence. }
-  destruct (exn_eqb e0 ClientDisconnected); [destruct H as (_ & _ & H & _); congruence|].
-  destruct (o_wrote_header1 _); [destruct H as (_ & _ & H & _); congruence|].
-  destruct H as (H1 & _ & H3). split; auto.
+  2: { destruct H as (H & _). exact H. }
+  destruct (exn_eqb e0 ClientDisconnected); [destruct H as (_ & _ & H & _); exact H|].
+  destruct (o_wrote_header1 _); [destruct H as (_ & _ & H & _); exact H|].
+  destruct H as (_ & _ & _ & H). exact H.
 Qed.
 
 End Corollaries.
